@@ -256,6 +256,9 @@ pub struct Finding {
 }
 
 pub fn load_findings(path: &str) -> Vec<Finding> {
+    // line format (committed file, never written at run time):
+    //   finding: property=<id> key=<harness/obligation or prefix*> :: <what fails>
+    //   fixed: property=<id> <commit> <what failed>
     let mut out = vec![];
     if let Ok(txt) = std::fs::read_to_string(path) {
         for line in txt.lines() {
@@ -263,14 +266,27 @@ pub fn load_findings(path: &str) -> Vec<Finding> {
             if line.is_empty() || line.starts_with('#') {
                 continue;
             }
-            if let Some(j) = parse_json(line) {
-                out.push(Finding {
-                    kind: j.get("kind").and_then(|x| x.as_str()).unwrap_or("").to_string(),
-                    property: j.get("property").and_then(|x| x.as_str()).unwrap_or("").to_string(),
-                    key: j.get("key").and_then(|x| x.as_str()).unwrap_or("").to_string(),
-                    what: j.get("what").and_then(|x| x.as_str()).unwrap_or("").to_string(),
-                });
+            let (kind, rest) = match line.split_once(':') {
+                Some((k, r)) => (k.trim().to_string(), r.trim().to_string()),
+                None => continue,
+            };
+            let mut property = String::new();
+            let mut key = String::new();
+            let mut what = rest.clone();
+            if let Some(r) = rest.strip_prefix("property=") {
+                let mut it = r.splitn(2, ' ');
+                property = it.next().unwrap_or("").to_string();
+                what = it.next().unwrap_or("").to_string();
             }
+            if kind == "finding" {
+                if let Some(r) = what.strip_prefix("key=") {
+                    if let Some((k, w)) = r.split_once(" :: ") {
+                        key = k.trim().to_string();
+                        what = w.trim().to_string();
+                    }
+                }
+            }
+            out.push(Finding { kind, property, key, what });
         }
     }
     out
@@ -415,7 +431,7 @@ impl PropRun {
 
     /// Write evidence, print KNOWN-FINDING / VIOLATION / UNDECIDED lines, return the exit code.
     pub fn finish(&mut self, verif_dir: &str) -> i32 {
-        let findings = load_findings(&format!("{}/known_findings.jsonl", verif_dir));
+        let findings = load_findings(&format!("{}/known_findings.txt", verif_dir));
         let mut violations: Vec<(String, &Candidate)> = vec![];
         let mut known: BTreeMap<String, (String, usize)> = BTreeMap::new();
         let mut unconfirmed = 0usize;
@@ -472,7 +488,13 @@ impl PropRun {
             exit = 1;
         }
         if undecided > 0 {
-            println!("UNDECIDED property={} n={}", self.id, undecided);
+            let mut names: BTreeMap<String, usize> = BTreeMap::new();
+            for r in &self.reports {
+                for u in &r.undecided {
+                    *names.entry(format!("{}/{}", r.harness, u)).or_insert(0) += 1;
+                }
+            }
+            println!("UNDECIDED property={} n={} {:?}", self.id, undecided, names);
         }
         if unconfirmed > 0 {
             println!("UNCONFIRMED property={} n={} (solver candidates that did not reproduce on the native f64 build; not reported as violations)", self.id, unconfirmed);
@@ -548,6 +570,7 @@ impl PropRun {
                     ("solver_seconds", J::Num((r.solver_s * 1000.0).round() / 1000.0)),
                     ("solver_errors", J::Int(r.solver_errors as i64)),
                     ("solver_timeouts", J::Int(r.solver_timeouts as i64)),
+                    ("decided_by_second_solver", J::Int(r.fallback_used as i64)),
                     ("max_term_dag_nodes", J::Int(r.max_nodes as i64)),
                     ("max_query_bytes", J::Int(r.max_smt_bytes as i64)),
                     ("native_path_models_replayed", J::Int(r.native_validated as i64)),
@@ -577,7 +600,7 @@ impl PropRun {
             ("functions_encoded".to_string(), jarr_str(&self.functions)),
             ("bounds".to_string(), jarr_str(&self.bounds)),
             ("outside_the_claim".to_string(), jarr_str(&self.outside)),
-            ("solver".to_string(), jstr("z3 4.8.12 (/usr/bin/z3 -in), Real arithmetic (nlsat/simplex); counterexamples replayed on the native f64 build")),
+            ("solver".to_string(), jstr("z3 4.8.12 (/usr/bin/z3 -in) primary, z3 5.1.0 (z3-new -in) on unknown/timeout; Real arithmetic (nlsat/simplex); counterexamples replayed on the native f64 build")),
             ("solver_queries".to_string(), J::Int(queries as i64)),
             ("solver_seconds".to_string(), J::Num((solver_s * 1000.0).round() / 1000.0)),
             ("solver_errors".to_string(), J::Int(solver_errors as i64)),
